@@ -66,11 +66,12 @@ HANDLES = [
 def info(tier):
     return {
         "level": LEVEL,
-        "rule": "generated problems x methods (real solvers, all returned statuses) observed by the consistency oracle; "
+        "rule": "generated problems x methods (real solvers, all returned statuses) observed by the consistency oracle; scripted solver results (3 constraint kinds x 2 senses x 5 methods x 6 terminations x 4 kinds of "
+        "`fun`: consistent, belonging to another iterate, huge, NaN) through the minimize seam; "
         "%d directed handle-retrieval recipes on solved models with pairwise distinct optimal values, for 3 solver "
         "methods; distinct = canonical (problem, method) hashes" % len(HANDLES),
         "required_cells": ["keys", "objective:optimal", "sense:min", "sense:max", "kind:constant-objective", "kind:objective-subset",
-                           "kind:lp", "kind:nlp", "history:flip-sense-same-object"] + [f"handle:{h}" for h, _, _ in HANDLES] + ["handle:by-name", "handle:get-default"],
+                           "kind:lp", "kind:nlp", "history:flip-sense-same-object", "stub:fun-consistent", "stub:fun-stale-iterate", "stub:fun-huge", "stub:fun-nan"] + [f"handle:{h}" for h, _, _ in HANDLES] + ["handle:by-name", "handle:get-default"],
         "assumptions": ["objective compared at rtol 1e-7 (values are float64 round-trips of the solver's point)"],
     }
 
@@ -210,8 +211,59 @@ def special_problems(rng):
     return out
 
 
+def workload_stub(ctx, rec):
+    """Scripted solver results whose `fun` does not belong to the returned `x` (SciPy's L-BFGS-B does this after an abnormal line
+    search: x = last accepted iterate, fun = last evaluated value): the reported objective value must still be the objective at
+    the returned values, in the user's orientation."""
+    from scipy.optimize import OptimizeResult
+
+    from ..monitors.seams import Seams
+    from .c06 import STUB_CONS, STUB_DECLS, STUB_METHODS, STUB_OBJ
+
+    seams = Seams().install()
+    try:
+        i = 0
+        for ck in ("none", "le", "eq"):
+            for sense in ("min", "max"):
+                for method in STUB_METHODS:
+                    for success, msg in ((True, "Optimization terminated successfully"), (False, "ABNORMAL: "), (False, "ABNORMAL_TERMINATION_IN_LNSRCH"),
+                                         (False, "Maximum number of iterations has been exceeded."), (False, "Desired error not necessarily achieved due to precision loss."),
+                                         (False, "NaN result encountered.")):
+                        for fun_kind in ("consistent", "stale-iterate", "huge", "nan"):
+                            i += 1
+                            if not ctx.mine(i):
+                                continue
+                            point = (0.5, 0.25) if ck != "eq" else (0.5, 0.25)
+                            obj = STUB_OBJ if sense == "min" else ["neg", STUB_OBJ]
+                            prob = {"decls": STUB_DECLS, "objective": obj, "sense": sense, "constraints": [STUB_CONS[ck]] if STUB_CONS[ck] else []}
+                            f_here = (point[0] - 2.0) ** 2 + point[1] ** 2  # the minimised function at the returned point
+                            fun = {"consistent": f_here, "stale-iterate": (1.75 - 2.0) ** 2 + 0.6 ** 2, "huge": -6.7e22, "nan": float("nan")}[fun_kind]
+                            script = {"success": success, "message": msg, "x": list(point), "fun": fun_kind, "constraint": ck, "sense": sense, "method": method}
+                            rec.case(script)
+                            b = B.Builder(STUB_DECLS)
+                            P = b.problem(prob)
+                            seams.reset()
+                            seams.min_stub = lambda call, s=script, f=fun: OptimizeResult(
+                                x=np.array(s["x"], dtype=float), success=s["success"], status=0 if s["success"] else 2, message=s["message"], fun=f, nit=3, nfev=9)
+                            try:
+                                with warnings.catch_warnings():
+                                    warnings.simplefilter("ignore")
+                                    sol = P.solve(method=method)
+                            except Exception as ex:
+                                rec.violation("stubbed-solve-raises:" + type(ex).__name__, {"script": script, "error": repr(ex)[:200]})
+                                continue
+                            finally:
+                                seams.min_stub = None
+                            rec.cmp(1, f"stub:fun-{fun_kind}")
+                            rec.paths[f"stub:{fun_kind}:success={success}->{sol.status.value}"] += 1
+                            SC.consistency(prob, P, sol, rec, lambda what, **kw: rec.violation("scripted-result:" + what, {"script": script, "prob": prob, **kw}))
+    finally:
+        seams.uninstall()
+
+
 def run(ctx, rec):
     rng = ctx.rng
+    workload_stub(ctx, rec)
     for i, m in enumerate(["SLSQP", "L-BFGS-B", "trust-constr", "auto"]):
         if ctx.mine(i):
             run_handles(rec, rng, m)
